@@ -40,6 +40,9 @@ pub fn run_line(line: &str, scratch: &str) -> String {
         "hash" => by_width!(c, op_hash),
         "build" => by_width!(c, op_build, scratch),
         "hist" => by_width!(c, op_hist, scratch),
+        "build2" => by_width!(c, op_build2, scratch),
+        "map" => by_width!(c, op_map, scratch),
+        "alnw" => op_alnw(c),
         _ => format!("unknown-op:{}", c.op),
     })
 }
@@ -388,4 +391,99 @@ fn op_hist<IntT: for<'a> UInt<'a>>(c: &Case, scratch: &str) -> String {
     }
     let _ = std::fs::remove_dir_all(&dir);
     out.join(" ")
+}
+
+// ------------------------------------------------------------------ map / AlnWriter
+
+use ska::merge_ska_dict::build_and_merge;
+use ska::ska_ref::aln_writer::AlnWriter;
+use ska::ska_ref::RefSka;
+
+fn op_alnw(c: &Case) -> String {
+    let k = c.usize("k");
+    let refs: Vec<Vec<u8>> = c.list("ref").iter().map(|s| s.as_bytes().to_vec()).collect();
+    let reps: Vec<usize> = c.list("reps").iter().map(|s| s.parse().unwrap()).collect();
+    let mut w = AlnWriter::new(&refs, k, &reps, c.flag("mask"));
+    for m in c.list("matches") {
+        let f: Vec<&str> = m.split(':').collect();
+        w.write_split_kmer(f[1].parse().unwrap(), f[0].parse().unwrap(), f[2].as_bytes()[0]);
+    }
+    w.finalise();
+    String::from_utf8_lossy(w.get_seq()).into_owned()
+}
+
+fn op_map<IntT: for<'a> UInt<'a>>(c: &Case, scratch: &str) -> String {
+    let k = c.usize("k");
+    let rc = c.flag("rc");
+    let dir = format!("{scratch}/map");
+    let _ = std::fs::remove_dir_all(&dir);
+    std::fs::create_dir_all(&dir).unwrap();
+    let ref_path = format!("{dir}/ref.fa");
+    write_fasta(&ref_path, &c.list("ref"), "r");
+    let dict = if let Some(t) = c.opt("table") {
+        make_array::<IntT>(k, rc, t).to_dict()
+    } else {
+        let mut inputs: Vec<(String, String, Option<String>)> = Vec::new();
+        for (i, smp) in c.get("samples").split('|').enumerate() {
+            let recs: Vec<&str> = smp.split('+').map(|r| if r == "." { "" } else { r }).collect();
+            let p = format!("{dir}/s{i}.fa");
+            write_fasta(&p, &recs, "q");
+            inputs.push((format!("s{i}"), p, None));
+        }
+        let qual = QualOpts { min_count: 1, min_qual: 0, qual_filter: QualFilter::NoFilter };
+        let d = build_and_merge::<IntT>(&inputs, k, rc, &qual, 1, None);
+        MergeSkaArray::new(&d).to_dict()
+    };
+    let mut r = RefSka::<IntT>::new(k, &ref_path, rc, c.flag("amask"), c.flag("rmask"));
+    r.map(&dict);
+    let mut aln: Vec<u8> = Vec::new();
+    r.write_aln(&mut aln, 1).unwrap();
+    let seqs = parse_fasta_text(&String::from_utf8_lossy(&aln));
+    let aln_s: Vec<String> = seqs.iter().map(|(n, s)| format!("{n}:{s}")).collect();
+    let mut vcf: Vec<u8> = Vec::new();
+    r.write_vcf(&mut vcf, 1).unwrap();
+    let mut raw: Vec<String> = Vec::new();
+    let mut dec: Vec<String> = Vec::new();
+    for l in String::from_utf8_lossy(&vcf).lines() {
+        if l.starts_with('#') {
+            continue;
+        }
+        let f: Vec<&str> = l.split('\t').collect();
+        let alts: Vec<&str> = if f[4] == "." { vec![] } else { f[4].split(',').collect() };
+        let gts: Vec<&str> = f[9..].to_vec();
+        raw.push(format!(
+            "{}:{}:{}:{}:{}",
+            f[0],
+            f[1],
+            f[3],
+            if alts.is_empty() { ".".to_string() } else { alts.join("/") },
+            gts.join("/")
+        ));
+        let d: String = gts
+            .iter()
+            .map(|g| {
+                if *g == "." {
+                    ".".to_string()
+                } else if *g == "0" {
+                    f[3].to_string()
+                } else {
+                    alts.get(g.parse::<usize>().unwrap() - 1).unwrap_or(&"?").to_string()
+                }
+            })
+            .collect();
+        dec.push(format!("{}:{}:{}:{}", f[0], f[1], f[3], d));
+    }
+    let _ = std::fs::remove_dir_all(&dir);
+    format!("aln[{}] vcf[{}] dec[{}]", join(&aln_s), join(&raw), join(&dec))
+}
+
+// ------------------------------------------------------------------ C02: metamorphic build
+
+/// dictionary of `recs`, and whether the transformed input `alt` gives the same dictionary
+fn op_build2<IntT: for<'a> UInt<'a>>(c: &Case, scratch: &str) -> String {
+    let a = guarded(|| op_build::<IntT>(c, scratch));
+    let line_b = format!("build w={} k={} rc={} recs={}", c.get("w"), c.get("k"), c.get("rc"), c.get("alt"));
+    let cb = Case::parse(&line_b);
+    let b = guarded(|| op_build::<IntT>(&cb, scratch));
+    format!("{} eq:{}", a, (a == b) as u8)
 }
